@@ -18,6 +18,7 @@ RUN == INSTANCE Runtime
 EN == INSTANCE Entries
 CO == INSTANCE Consts
 CP == INSTANCE Compile
+WR == INSTANCE WgpuRules
 
 Rec == ndJsonDeserialize(IOEnv.TRACE)
 Enforce == IOEnv.ENFORCE
@@ -353,6 +354,41 @@ C05Sound(c, o) ==
                : n \in hs }
        \cup C05(c, o).fails ]
 
+(* ------------------------------------------------------------------ C02 *)
+EntryOf(o, r) ==
+  LET gs == SelectSeq(o.out.groups, LAMBDA G : G.no = r.group /\ Has(G, "entries"))
+  IN IF gs = << >> THEN << >> ELSE SelectSeq(gs[1].entries, LAMBDA e : e.binding = r.binding)
+RuleErrors(S, o, r) ==
+  LET es == EntryOf(o, r) IN
+  IF Len(es) # 1 THEN { "no unique layout entry at @group(" \o r.group \o ") @binding(" \o r.binding \o ")" }
+  ELSE LET e == es[1] IN
+       Chk(WR!BglEntryError(e.ty) = "", "layout entry of " \o r.name \o " is rejected by create_bind_group_layout: " \o WR!BglEntryError(e.ty))
+       \cup Chk(Vis(S, r.name) = {} \/ WR!BindingUseError(r, e.ty) = "", "layout entry of " \o r.name \o " (" \o ToJson(e.ty) \o ") is incompatible with its WGSL declaration " \o ToJson(r.ty) \o ": " \o WR!BindingUseError(r, e.ty))
+       \cup Chk(Has(e, "vis") /\ Vis(S, r.name) \subseteq Range(e.vis), "binding " \o r.name \o " is not visible to a stage that uses it")
+RealErrors(o) == { e \in Range(RtOf(o, "wgpu")) : Has(e, "err") /\ (e.call \in {"create_bind_group_layout", "create_pipeline_layout"} \/ e.binding_related) }
+(* stages whose entry points all went through real pipeline creation in this run *)
+ValidatedStages(o) ==
+  LET ev == RtOf(o, "wgpu") IN
+  (IF \E e \in Range(ev) : e.call = "create_compute_pipeline" THEN {"COMPUTE"} ELSE {})
+  \cup (IF \E e \in Range(ev) : e.call = "create_render_pipeline" THEN {"VERTEX"} ELSE {})
+  \cup (IF \E e \in Range(ev) : e.call = "create_render_pipeline" /\ Has(e, "fragment") /\ e.fragment # "null" THEN {"FRAGMENT"} ELSE {})
+C02(c, o) ==
+  IF ~(HasS(c) /\ ValidAll(o) /\ Projected(o) /\ Compiled(o)) THEN NoVerdict ELSE
+  LET S == c.S
+      ruleOf == [ i \in DOMAIN Resources(S) |-> RuleErrors(S, o, Resources(S)[i]) ]
+      rules == UNION { ruleOf[i] : i \in DOMAIN Resources(S) }
+      real == RealErrors(o)
+      ran == RtOf(o, "wgpu") # << >>
+      (* resources with a predicted error whose using stages were all really validated: wgpu must have reported something *)
+      covered == { i \in DOMAIN Resources(S) : ruleOf[i] # {} /\ Vis(S, Resources(S)[i].name) # {} /\ Vis(S, Resources(S)[i].name) \subseteq ValidatedStages(o) }
+      uncovered == { i \in DOMAIN Resources(S) : ruleOf[i] # {} } \ covered
+  IN [ dom |-> ran \/ (\E x \in Range(o.rt) : x.probe = "wgpu"), fails |->
+       { "wgpu rejects " \o e.call \o ": " \o e.err \o (IF rules = {} THEN " [not predicted by WgpuRules.tla]" ELSE "") : e \in real }
+       \cup { "the wgpu validation probe does not compile: " \o m : m \in ProbeFail(o, "wgpu") }
+       \cup { "uncaptured wgpu error: " \o e.msg : e \in { x \in Range(o.rt) : x.ev = "probe.panic" /\ x.probe = "wgpu" } }
+       \cup (IF ran /\ real = {} /\ covered # {} THEN { "ORACLE WgpuRules.tla predicts a rejection that real wgpu does not report: " \o m : m \in UNION { ruleOf[i] : i \in covered } } ELSE {})
+       \cup (IF real = {} THEN { m \o " [by the transcribed wgpu rules; the using stage was not exercised by a real pipeline in this case]" : m \in UNION { ruleOf[i] : i \in uncovered } } ELSE {}) ]
+
 (* ------------------------------------------------------------------ C10 *)
 EncaseFails(S, e) ==
   LET n == e.struct
@@ -447,6 +483,17 @@ C16(c, o) ==
                           "compiled module: " \o ToJson(e)) : e \in Range(rt) }
          \cup { "SOURCE / create_shader_module cannot be used as documented: " \o x : x \in ProbeFail(o, "source") } ]
 
+(* ------------------------------------------------------------------ C07: wgpu's own vertex-buffer / vertex-input validation *)
+C07W(c, o) ==
+  IF ~(HasS(c) /\ ValidAll(o) /\ RetOk(o) /\ Compiled(o) /\ \E i \in DOMAIN c.S.entries : c.S.entries[i].stage = "vertex" /\ EN!StructParams(c.S.entries[i]) # << >>) THEN NoVerdict ELSE
+  LET ev == SelectSeq(RtOf(o, "wgpu"), LAMBDA e : e.call = "create_render_pipeline")
+      (* documented limitation: located vertex inputs outside a struct get no buffer (README TODO) *)
+      looseLoc == \E i \in DOMAIN c.S.entries : c.S.entries[i].stage = "vertex" /\ \E p \in Range(c.S.entries[i].params) : p.k = "loc"
+  IN
+  IF looseLoc THEN NoVerdict ELSE
+  [ dom |-> ev # << >>, fails |->
+      { "wgpu rejects the vertex buffer layouts of " \o e.vertex \o ": " \o e.err : e \in { x \in Range(ev) : Has(x, "err") /\ x.vertex_related } } ]
+
 (* ------------------------------------------------------------------ C17 *)
 Renders(o) == Has(o, "renders") /\ o.renders.to_string.ok /\ o.renders.to_string_with_path.ok
 C17(c, o) ==
@@ -503,9 +550,11 @@ Judge0(c, o) ==
     [] Enforce = "C05S" -> C05Sound(c, o)
     [] Enforce = "C01" -> C01(c, o)
     [] Enforce = "C10" -> C10(c, o)
+    [] Enforce = "C02" -> C02(c, o)
     [] Enforce = "C04" -> C04(c, o)
     [] Enforce = "C14" -> C14(c, o)
     [] Enforce = "C07" -> C07(c, o)
+    [] Enforce = "C07W" -> C07W(c, o)
     [] Enforce = "C12" -> C12(c, o)
     [] Enforce = "C15" -> C15(c, o)
     [] OTHER -> NoVerdict
@@ -518,7 +567,7 @@ Judge(c, o) ==
     [] Enforce = "C18" -> C18(c, o)
     [] OTHER -> Stateless(Judge0(c, o), c)
 
-Emit1(c, m) == PrintT("VERDICT " \o ToJson([ prop |-> (IF Enforce = "C05S" THEN "C05" ELSE Enforce), id |-> c.id, family |-> c.family, msg |-> m ]))
+Emit1(c, m) == PrintT("VERDICT " \o ToJson([ prop |-> (IF Enforce = "C05S" THEN "C05" ELSE IF Enforce = "C07W" THEN "C07" ELSE Enforce), id |-> c.id, family |-> c.family, msg |-> m ]))
 
 Init == l = 1 /\ cur = [ id |-> "", has_s |-> FALSE ] /\ nj = 0 /\ nbad = 0 /\ memo = [ sha |-> "", m |-> << >> ] /\ ph = << >>
         /\ TLCSet(1, 0) /\ TLCSet(2, 0)
